@@ -28,7 +28,7 @@ theorem locate_variable (env : Env) (o : Options) (e : RimEvent) (h : e.locType 
       | none => { out := .err "varloc" }
       | some (guid, name) =>
         match o.reader with
-        | none => { out := .panic "Locate/nil-reader" }
+        | none => { out := .err "locatereadernil" }
         | some root => readVariable env root guid name := by
   unfold locate
   rw [if_neg (by rw [h, gen_raw]; decide), if_neg (by rw [h, gen_uri]; decide), if_pos (by rw [h, gen_variable])]
